@@ -31,9 +31,32 @@ def _setup(prop):
         eng.register(s)
     units = list(getattr(mod, "UNITS", []))
     for s in units:
-        eng.register(s)
-    _STATE.update(prop=prop, mod=mod, eng=eng, units=units)
+        if not getattr(s, "context", None):
+            eng.register(s)
+    _STATE.update(prop=prop, mod=mod, eng=eng, units=units, ctx={})
     return _STATE
+
+
+def engine_for(st, spec):
+    """the engine a unit is verified with: the property's own, or -- for a unit borrowed from another property's contract module
+    (`spec.context = "<module>"`, see api.foreign) -- one set up with that module's callee contracts and hooks"""
+    ctx = getattr(spec, "context", None) if spec is not None else None
+    if not ctx:
+        return st["eng"], st["mod"]
+    if ctx not in st["ctx"]:
+        from .engine import Engine
+        mod2 = importlib.import_module(f"contracts.{ctx}")
+        eng2 = Engine()
+        hook = getattr(mod2, "engine_setup", None)
+        if hook:
+            hook(eng2)
+        for s in list(getattr(mod2, "CALLEES", [])) + list(getattr(mod2, "UNITS", [])):
+            if not getattr(s, "context", None):
+                eng2.register(s)
+        st["ctx"][ctx] = (eng2, mod2)
+    eng2, mod2 = st["ctx"][ctx]
+    eng2.register(spec)
+    return eng2, mod2
 
 
 def list_jobs(prop):
@@ -159,6 +182,31 @@ def solve(ob, timeout_ms, both, extra_axioms=()):
     elif r == z3.unknown:
         res["detail"] = s.reason_unknown()
         text = s.to_smt2()
+        # an existential goal: try the candidate witnesses that occur in the obligation itself (sound: see strengthen_exists)
+        try:
+            strong = strengthen_exists(ob.goal, list(ob.hyps))
+        except z3.Z3Exception:
+            strong = None
+        if strong is not None:
+            sw = z3.Solver()
+            sw.set("timeout", int(timeout_ms))
+            sw.add(*ob.hyps)
+            sw.add(*extra_axioms)
+            for a in coll.member_axioms():
+                sw.add(a)
+            sw.add(z3.Not(strong))
+            try:
+                rw = sw.check()
+            except z3.Z3Exception:
+                rw = z3.unknown
+            if rw == z3.unknown:
+                rw2 = smt._solve_cvc5(sw.to_smt2(), timeout_ms)
+                if rw2["status"] == "unsat":
+                    rw = z3.unsat
+            if rw == z3.unsat:
+                res.update(status="unsat", solver="z3-" + z3.get_version_string() + " (witnesses from the obligation's own terms: runner.strengthen_exists)",
+                           time=time.time() - t0, smt2=None)
+                return res
         r2 = smt._solve_cvc5(text, timeout_ms)
         res["cvc5"] = r2["status"]
         if r2["status"] == "unsat":
@@ -191,6 +239,89 @@ def solve(ob, timeout_ms, both, extra_axioms=()):
     if res["status"] != "unsat":
         res["smt2"] = s.to_smt2()
     return res
+
+
+# ---------------------------------------------------------------------------------------------------- existential goals
+_WIT = [0]
+
+
+def _is_ground(t):
+    stack, seen = [t], set()
+    while stack:
+        y = stack.pop()
+        if y.get_id() in seen:
+            continue
+        seen.add(y.get_id())
+        if z3.is_var(y) or z3.is_quantifier(y):
+            return False
+        stack.extend(y.children())
+    return True
+
+
+def _term_size(t):
+    n, stack = 0, [t]
+    while stack and n < 50:
+        y = stack.pop()
+        n += 1
+        stack.extend(y.children())
+    return n
+
+
+def _ground_terms(exprs, sort):
+    """ground applications of uninterpreted functions / constants of the given sort occurring in the expressions"""
+    out, seen, stack = {}, set(), list(exprs)
+    while stack:
+        y = stack.pop()
+        if y.get_id() in seen:
+            continue
+        seen.add(y.get_id())
+        if z3.is_quantifier(y):
+            stack.append(y.body())
+            continue
+        if z3.is_app(y):
+            if y.sort() == sort and y.decl().kind() == z3.Z3_OP_UNINTERPRETED and _is_ground(y):
+                out[y.get_id()] = y
+            stack.extend(y.children())
+    return list(out.values())
+
+
+def strengthen_exists(goal, hyps, max_cands=24):
+    """A goal that implies the given one, with every positively occurring `exists j. phi(j)` replaced by the disjunction of
+    phi(c) over candidate witnesses c -- the ground uninterpreted terms of j's sort that occur in the goal (after its outer
+    universal variables were replaced by fresh constants) and in the hypotheses.  Proving the result proves the goal
+    (a witness is exhibited; outer `forall`s are proved for fresh constants); failing to prove it says nothing."""
+    changed = [False]
+
+    def walk(g, extra):
+        if z3.is_quantifier(g):
+            n = g.num_vars()
+            if g.is_forall():
+                _WIT[0] += 1
+                cs = [z3.Const(f"wit!{_WIT[0]}!{g.var_name(i)}", g.var_sort(i)) for i in range(n)]
+                return walk(z3.substitute_vars(g.body(), *reversed(cs)), extra)
+            if g.is_exists() and n == 1:
+                sort = g.var_sort(0)
+                cands = _ground_terms([g.body()] + extra, sort)
+                cands.sort(key=_term_size)
+                pool = _ground_terms(hyps, sort)
+                pool.sort(key=_term_size)
+                ids = {c.get_id() for c in cands}
+                cands = (cands + [c for c in pool if c.get_id() not in ids])[:max_cands]
+                if not cands:
+                    return g
+                changed[0] = True
+                return z3.Or(*[z3.substitute_vars(g.body(), c) for c in cands])
+            return g
+        if z3.is_and(g):
+            return z3.And(*[walk(c, extra) for c in g.children()])
+        if z3.is_implies(g):
+            return z3.Implies(g.arg(0), walk(g.arg(1), extra + [g.arg(0)]))
+        if z3.is_app(g) and g.decl().kind() == z3.Z3_OP_ITE and g.sort() == z3.BoolSort():
+            c = g.arg(0)
+            return z3.And(z3.Implies(c, walk(g.arg(1), extra + [c])), z3.Implies(z3.Not(c), walk(g.arg(2), extra + [z3.Not(c)])))
+        return g
+    out = walk(goal, [goal])
+    return out if changed[0] else None
 
 
 def _has_quantifier(x):
@@ -236,10 +367,11 @@ def run_job(arg):
 def _run_job(prop, job, tier, known, want_sample, t0):
     from . import models, replay as _replay
     st = _setup(prop)
-    eng, mod = st["eng"], st["mod"]
+    mod = st["mod"]
+    eng, umod = engine_for(st, st["units"][job[0]] if job[0] != "lemmas" else None)
     timeout = 10000 if tier == "quick" else 120000
     both = tier == "thorough"
-    axioms = getattr(mod, "extra_axioms", lambda: [])()
+    axioms = getattr(umod, "extra_axioms", lambda: [])()
     eng.functions = {}
     eng.out_of_subset = []
     eng.vacuous_asserts = []
